@@ -126,6 +126,8 @@ LinWait(g) ==
   /\ running = {} /\ queued = {}
   \* the worker count Wait returned with (observed exactly under the controlled scheduler, -1 = not observed)
   /\ HasRet(g) => RetOf(g).count \in {0, -1}
+  \* ... and (WorkersL2's invariant QueueServed, observed on the real state) nothing is queued without a worker
+  /\ HasRet(g) => RetOf(g).queue \in {0, -1}
   /\ idle' = TRUE
   /\ SetPend(g, "done")
   /\ UNCHANGED <<queued, running, finished, maxreq, released, gatedIds>>
@@ -135,6 +137,8 @@ LinCount(g) ==
   /\ HasRet(g) => /\ RetOf(g).n >= Cardinality(running)
                   /\ RetOf(g).n <= maxreq
                   /\ idle => RetOf(g).n = 0         \* after Wait (and before any new call) Count is zero
+                  \* the real state at the return (exact under the controlled scheduler): a queued function has a worker
+                  /\ RetOf(g).queue > 0 => RetOf(g).count > 0
   /\ SetPend(g, "done")
   /\ UNCHANGED vars
 
